@@ -9,7 +9,7 @@ META = {
     "technique": "Coq proof (render/parse round trip over a model of the declaration grammar fragment; textual identity of the rest of the source) "
                  "+ model/impl differential on generated connectors and pipeline sources + AST oracle on the real parser",
     "design_ref": "DESIGN.md §7 C39",
-    "level_text": "proof",
+    "level_text": "Coq theorems: render/parse round trip of every validated connector declaration and textual identity of the rest of the source, about an executable model tied to connector_config.rs and the VPL parser by a differential run on every check",
     "level_note": "Proved for the model Text/Connector.v: every connector accepted by validate renders to a declaration that the modelled grammar "
                   "fragment parses back to the same name, type and parameter strings (for every parameter order), and injection leaves the source "
                   "text unchanged after the prepended declaration lines when no connector uses client_id_mode=append_pipeline. Modelled, tied by the "
